@@ -195,7 +195,7 @@ static void cmd_Y(char** t, int nt) {
         if (dir == 2 && r == 0) { frames_done++; ending = 0; }
         if (k >= nops && ipos == n && dir == 2 && r == 0) break;
         if (k >= nops && ipos == n && c->streamStage == zcss_init && c->stableIn_notConsumed == 0 && frames_done > 0) break;
-        if (ncalls > 100000) break;
+        if (ncalls > 30000) break;   /* a history that does not finish is cut here (reported by the caller as incomplete) */
     }
     printf("%s OK ", id); puthex(out, opos); printf(" %s\n", rl ? rec : "-");
 done:
